@@ -114,4 +114,6 @@ def run(chk):
     obs = []
     for part in core.parallel_map(_exec, [(chk.seed * 1000 + i, n // core.NPROC + 1) for i in range(core.NPROC)]):
         obs += part
+    from .. import suite
+    obs += suite.suite_rows('C18', chk)          # the repository's own test-suite, traced (integer stores into 64+ bit words)
     return obs
